@@ -112,12 +112,12 @@ def run(tier):
     spec = C14Spec(tier)
     report = Report(PROP, "model_checking", tier)
     if tier == "quick":
-        explore.run(spec, report, tier, 5, 300000, 150)
+        explore.run(spec, report, tier, 5, 300000, 600)
     else:
         explore.run(spec, report, tier, 6, 3000000, 1800)
     cov_sync = dict(report.coverage)
     sub = Report(PROP, "model_checking", tier)
-    explore.run(C14AsyncSpec(), sub, tier, 4 if tier == "quick" else 5, 200000, 200 if tier == "quick" else 900)
+    explore.run(C14AsyncSpec(), sub, tier, 4 if tier == "quick" else 5, 200000, 600 if tier == "quick" else 900)
     report.add_all(sub.violations.values())
     app_part = run_app_part(report, tier)
     cov = report.coverage
